@@ -2,6 +2,7 @@ package mon
 
 import (
 	"fmt"
+	"regexp"
 	"sort"
 	"strings"
 
@@ -469,6 +470,14 @@ type c29Side struct {
 	ex   float64
 }
 
+var c29ReSelfLoop = regexp.MustCompile(`\((\S+) (?:--|->|<-|<->) (\S+)\)\[\d+\]$`)
+
+// c29SelfLoop reports whether a connection id "(a -> a)[0]" joins an object with itself.
+func c29SelfLoop(id string) bool {
+	m := c29ReSelfLoop.FindStringSubmatch(id)
+	return m != nil && m[1] == m[2]
+}
+
 func c29Sides(r, outer model.Rect) []c29Side {
 	return []c29Side{{"left", outer.X1 - r.X1}, {"top", outer.Y1 - r.Y1}, {"right", r.X2 - outer.X2}, {"bottom", r.Y2 - outer.Y2}}
 }
@@ -480,7 +489,22 @@ func c29Trigger(e c29Elem, s *d2target.Shape, side string, ex float64) string {
 	vertical := side == "top" || side == "bottom"
 	switch {
 	case s == nil:
+		// connection elements: a self loop is drawn as a curve whose control points bulge a
+		// few pixels beyond the route points BoundingBox accounts for
+		if k == "route-path" && c29SelfLoop(e.Owner) {
+			if ex <= 8 {
+				return ":self-loop-curve-bulge-by-at-most-8px"
+			}
+			return ":self-loop-beyond-curve-bulge"
+		}
 		return ""
+	case k == "shape-geometry:page":
+		// the page outline draws its folded corner with fixed pixel offsets; on a box narrower
+		// than the fold the path leaves the box by a couple of pixels
+		if s.Width <= 40 && ex <= 4 {
+			return ":box-narrower-than-fold-by-at-most-4px"
+		}
+		return ":box-not-narrower-than-fold"
 	case strings.HasPrefix(k, "icon:outside"):
 		mainVertical := strings.HasPrefix(s.IconPosition, "OUTSIDE_TOP") || strings.HasPrefix(s.IconPosition, "OUTSIDE_BOTTOM")
 		if vertical == mainVertical {
